@@ -41,6 +41,13 @@ def duplicateIgnoreRaises (hasUpdates : Bool) : Bool := hasUpdates
 def doNothingRaises (hasDoUpdates : Bool) : Bool := hasDoUpdates
 def doUpdateRaises (doNothing : Bool) : Bool := doNothing
 
+/-- PostgreSQL `_validate_returning_term` (foreign-table part), per field of the term: the statement must be an
+    INSERT / UPDATE / DELETE, and a field that is not on the insert / update target makes the term foreign as soon as the
+    term names a table outside FROM ∪ joined items ∪ tables of join criteria ∪ targets.  `0` stands for "no table"
+    (a table-less field; `None` is always among the targets). -/
+def returningRaises (hasDml : Bool) (targets fieldTables known : List Nat) : Bool :=
+  fieldTables.any (fun ft => !hasDml || (!targets.contains ft && fieldTables.any (fun t => !known.contains t)))
+
 /-- Vertica `local()` / `preserve_rows()` need TEMPORARY -/
 def verticaLocalRaises (temporary : Bool) : Bool := !temporary
 
